@@ -10,6 +10,16 @@
 #ifndef _SZ_H
 #define _SZ_H
 
+/* verification hooks (compiled in only with -DSZ_VERIF): a harness-supplied szv_yield() is called at the points where
+ * the compression path has just written, or is about to read, process-global state, so that a test can decide which
+ * thread runs next. Without SZ_VERIF the macro expands to nothing. */
+#ifdef SZ_VERIF
+void szv_yield(int point);
+#define SZ_VERIF_YIELD(p) szv_yield(p)
+#else
+#define SZ_VERIF_YIELD(p)
+#endif
+
 #include <stdio.h>
 #include <stdint.h>
 #ifdef HAVE_SYS_TIME_H
